@@ -96,7 +96,10 @@ void World::CheckOrdering(const InvRecord& r) {
 void World::CheckFailures(const InvRecord& r) {
   if (r.plan.dry || !r.plan.tool.empty()) return;
   // a needed source file is missing: an error before anything is started
-  if (!missing_source.empty() && r.res.end == ProcResult::kExit && !r.fault_fired && !r.interrupted) {
+  // (a build that stops on a graph error - possibly mid-build, when a dyndep file reveals the need -
+  // is not an ordinary failed build: none of the rules below is meant for it)
+  if (!missing_source.empty() && !(r.res.end == ProcResult::kExit && !r.fault_fired && !r.interrupted)) return;
+  if (!missing_source.empty()) {
     bool needed = false;
     for (int id : Closure(EffectiveTargets(r.plan), true)) {
       const Stmt& s = sc.stmts[id];
@@ -109,8 +112,24 @@ void World::CheckFailures(const InvRecord& r) {
       // (another error may legitimately come first - an unknown target, say - as long as nothing is started)
       if (r.res.exit_code == 0 || (all.find("missing and no known rule to make it") == std::string::npos && !r.spawns.empty()))
         Report("C05", "missing_source_ignored", "source " + missing_source + " is missing and a needed statement names it as an input, but ninja " + (r.res.exit_code == 0 ? "exited with status 0" : "did not say so"));
-      else if (!r.spawns.empty())
-        Report("C05", "missing_source_ignored", "source " + missing_source + " is missing; ninja reported it only after starting " + S((long)r.spawns.size()) + " command(s)");
+      else if (!r.spawns.empty()) {
+        // "before anything is started" only holds for what the manifest alone says: a need that
+        // a dyndep file produced in this very build reveals cannot be known earlier
+        bool needed_by_manifest = false;
+        std::set<int> seen;
+        std::vector<std::string> todo = EffectiveTargets(r.plan);
+        while (!todo.empty()) {
+          std::string t = todo.back(); todo.pop_back();
+          int pr = -1;
+          for (const Stmt& m : sc.stmts) if (m.alive) for (auto& o2 : m.AllOuts()) if (o2 == t) pr = m.id;
+          if (pr < 0 || !seen.insert(pr).second) continue;
+          const Stmt& s = sc.stmts[pr];
+          for (auto* v : {&s.ins, &s.imp_ins}) for (auto& q : *v) { if (q == missing_source) needed_by_manifest = true; todo.push_back(q); }
+          for (auto* v : {&s.oo_ins, &s.validations}) for (auto& q : *v) todo.push_back(q);
+        }
+        if (needed_by_manifest)
+          Report("C05", "missing_source_ignored", "source " + missing_source + " is missing; ninja reported it only after starting " + S((long)r.spawns.size()) + " command(s)");
+      }
     }
     return;
   }
